@@ -23,6 +23,7 @@ const (
 	tTXT   = 16
 	tAAAA  = 28
 	tSRV   = 33
+	tDS    = 43
 	tSVCB  = 64
 	tHTTPS = 65
 	tSPF   = 99
@@ -31,7 +32,7 @@ const (
 )
 
 var typeName = map[uint16]string{tA: "A", tNS: "NS", tCNAME: "CNAME", tSOA: "SOA", tPTR: "PTR", tMX: "MX", tTXT: "TXT",
-	tAAAA: "AAAA", tSRV: "SRV", tSVCB: "SVCB", tHTTPS: "HTTPS", tSPF: "TYPE99", tPRIV: "TYPE65280", tANY: "ANY"}
+	tAAAA: "AAAA", tSRV: "SRV", tSVCB: "SVCB", tHTTPS: "HTTPS", tSPF: "TYPE99", tPRIV: "TYPE65280", tANY: "ANY", tDS: "DS"}
 
 // Default TTLs of the data format.
 const (
@@ -78,6 +79,7 @@ type Item struct {
 	Maps  []MapDecl
 	Nets  []NetDecl
 	Why   string
+	Solo  bool // a value-domain item (boundary value of one rdata / name field): appears only in the files skeleton + this item
 	Aux   bool // stored under a key shape (owner, wildcard flag, location) that another item already has and not consulted for additional-section processing: left out of the larger RocksDB files
 }
 
@@ -183,6 +185,77 @@ func cidr(s string) *net.IPNet {
 
 var longText = strings.Repeat("0123456789abcdefghijklmnopqrstuvwxyzABCD", 5) // 200 bytes: three chunks in the data format
 
+// textOf returns n bytes of text in which every 127-byte block starts with another letter.
+func textOf(n int) string {
+	var sb strings.Builder
+	for i := 0; i < n; i++ {
+		if i%127 == 0 {
+			sb.WriteByte("ABCDEFGH"[(i/127)%8])
+		} else {
+			sb.WriteByte("0123456789abcdefghijklmnopqrstuvwxyz"[i%36])
+		}
+	}
+	return sb.String()
+}
+
+// octal escapes a byte string for a data line (\ooo for every byte).
+func octal(raw string) string {
+	var sb strings.Builder
+	for i := 0; i < len(raw); i++ {
+		b := raw[i]
+		sb.WriteByte('\\')
+		sb.WriteByte('0' + b>>6)
+		sb.WriteByte('0' + (b>>3)&7)
+		sb.WriteByte('0' + b&7)
+	}
+	return sb.String()
+}
+
+// Names at the size limits of the DNS (labels of 63 bytes, names of 255 bytes in wire form).
+var (
+	label63 = strings.Repeat("l", 63)
+	name255 = strings.Repeat("x", 63) + "." + strings.Repeat("y", 63) + "." + strings.Repeat("z", 63) + "." + strings.Repeat("w", 49) + ".example.com" // 64+64+64+50+13 = 255 bytes on the wire
+	name254 = strings.Repeat("x", 63) + "." + strings.Repeat("y", 63) + "." + strings.Repeat("z", 63) + "." + strings.Repeat("v", 48) + ".example.com"
+	deep15  = "a.b.c.d.e.f.g.h.i.j.k.l.deep.example.com" // 15 labels
+	alpn255 = strings.Repeat("p", 255)
+	alpn254 = strings.Repeat("q", 254)
+	rawLong = func() string {
+		b := make([]byte, 300)
+		for i := range b {
+			b[i] = byte(i * 7)
+		}
+		return string(b)
+	}() // every byte value incl. 0x00 and 0xff
+	maxU32   = 4294967295
+	maxTTL31 = 2147483647
+)
+
+// wireLen is the length of a name in wire form.
+func wireLen(n string) int { return len(wireName(n)) }
+
+// validName: labels of 1..63 bytes, at most 255 bytes on the wire.
+func validName(n string) bool {
+	n = fq(n)
+	if n == "." {
+		return true
+	}
+	for _, l := range strings.Split(strings.TrimSuffix(n, "."), ".") {
+		if len(l) == 0 || len(l) > 63 {
+			return false
+		}
+	}
+	return wireLen(n) <= 255
+}
+
+// extraQueryNames are asked of every file although nothing is declared at them
+// (no closure over their ancestors): many labels, longest names and labels.
+var extraQueryNames = []string{
+	"l1.l2.l3.l4.l5.l6.l7.l8.l9.l10.l11.l12.w.example.com.", // 15 labels, 12 of them below a possible wildcard
+	strings.Repeat("a.", 121) + "example.com.",              // 123 labels, 255 bytes on the wire, below the apex
+	strings.Repeat("b.", 118) + "deleg.example.com.",        // 121 labels, 255 bytes, below a possible delegation
+	strings.Repeat("m", 63) + ".w.example.com.",             // longest label, below a possible wildcard
+}
+
 // Skeletons: apex example.com (SOA+NS) and the location plumbing.
 var plumbingLines = []string{
 	"Mexample.com,m1",
@@ -279,4 +352,84 @@ var alphabet = []Item{
 		"&loc.example.com,,a.ns.example.com,3600,,aa"}, Recs: []Rec{
 		rSOA("loc.example.com", "a.ns.example.com", "hostmaster.example.com", 1, 7200, 1800, 604800, 120, ttlSOA, "aa"),
 		rName(tNS, "loc.example.com", "a.ns.example.com", 3600, "aa")}, Why: "a zone that exists only for one location; SOA default TTL"},
+
+	// --- zone apex / zone cut records split between a location and the untagged set ---
+	{ID: "apex-ns-aa", Lines: []string{"&example.com,,b.ns.example.com,3600,,aa"}, Recs: []Rec{rName(tNS, "example.com", "b.ns.example.com", 3600, "aa")},
+		Why: "per-location NS at the main apex next to the untagged SOA+NS: the located client is still answered authoritatively"},
+	{ID: "apex-soa-aa", Lines: []string{"Zexample.com,a.ns.example.com,hostmaster.example.com,9,7200,1800,604800,120,600,,aa"}, Recs: []Rec{
+		rSOA("example.com", "a.ns.example.com", "hostmaster.example.com", 9, 7200, 1800, 604800, 120, 600, "aa")},
+		Why: "per-location SOA at the main apex next to the untagged SOA+NS"},
+	{ID: "apex-a-aa", Aux: true, Lines: []string{"+example.com,192.0.2.91,300,,aa"}, Recs: []Rec{rA("example.com", "192.0.2.91", 300, "aa")},
+		Why: "located non-SOA/NS record at the apex: the apex has rows for the location, but neither SOA nor NS among them"},
+	{ID: "zone-split-ns", Lines: []string{
+		"Zsp.example.com,a.ns.example.com,hostmaster.example.com,5,7200,1800,604800,120,300,,",
+		"&sp.example.com,,a.ns.example.com,3600,,aa",
+		"&sp.example.com,,b.ns.example.com,3600,,bb"}, Recs: []Rec{
+		rSOA("sp.example.com", "a.ns.example.com", "hostmaster.example.com", 5, 7200, 1800, 604800, 120, 300, ""),
+		rName(tNS, "sp.example.com", "a.ns.example.com", 3600, "aa"),
+		rName(tNS, "sp.example.com", "b.ns.example.com", 3600, "bb")},
+		Why: "nested zone with a shared untagged SOA and per-location NS sets; no cut at all for an unlocated client"},
+	{ID: "x-sp", Aux: true, Lines: []string{"+x.sp.example.com,192.0.2.32,300,,"}, Recs: []Rec{rA("x.sp.example.com", "192.0.2.32", 300, "")}, Why: "data below the split apex"},
+	{ID: "zone-split-soa", Lines: []string{
+		"&sq.example.com,,a.ns.example.com,3600,,",
+		"Zsq.example.com,a.ns.example.com,hostmaster.example.com,7,7200,1800,604800,120,300,,aa"}, Recs: []Rec{
+		rName(tNS, "sq.example.com", "a.ns.example.com", 3600, ""),
+		rSOA("sq.example.com", "a.ns.example.com", "hostmaster.example.com", 7, 7200, 1800, 604800, 120, 300, "aa")},
+		Why: "untagged NS with a per-location SOA: an authoritative zone for one location, a delegation for everyone else"},
+	{ID: "x-sq", Aux: true, Lines: []string{"+x.sq.example.com,192.0.2.33,300,,"}, Recs: []Rec{rA("x.sq.example.com", "192.0.2.33", 300, "")}, Why: "data below the split cut (occluded for everyone but aa)"},
+
+	// --- value domains: one value below, at and above every size boundary of the record encoders ---
+	{ID: "txt-126", Solo: true, Lines: []string{"'t126.example.com," + textOf(126) + ",300,,"}, Recs: []Rec{rTXT("t126.example.com", textOf(126), 300, "")}, Why: "one byte less than a full 127-byte chunk"},
+	{ID: "txt-127", Solo: true, Lines: []string{"'t127.example.com," + textOf(127) + ",300,,"}, Recs: []Rec{rTXT("t127.example.com", textOf(127), 300, "")}, Why: "exactly one full chunk"},
+	{ID: "txt-128", Solo: true, Lines: []string{"'t128.example.com," + textOf(128) + ",300,,"}, Recs: []Rec{rTXT("t128.example.com", textOf(128), 300, "")}, Why: "one chunk and one byte"},
+	{ID: "txt-253", Solo: true, Lines: []string{"'t253.example.com," + textOf(253) + ",300,,"}, Recs: []Rec{rTXT("t253.example.com", textOf(253), 300, "")}, Why: "one byte less than two chunks"},
+	{ID: "txt-254", Solo: true, Lines: []string{"'*.t254.example.com," + textOf(254) + ",,,aa"}, Recs: []Rec{rTXT("*.t254.example.com", textOf(254), ttlOther, "aa")}, Why: "exactly two chunks; located wildcard (longest record head)"},
+	{ID: "txt-255", Solo: true, Lines: []string{"'t255.example.com," + textOf(255) + ",300,,"}, Recs: []Rec{rTXT("t255.example.com", textOf(255), 300, "")}, Why: "longest single character-string of the wire format"},
+	{ID: "txt-256", Solo: true, Lines: []string{"'t256.example.com," + textOf(256) + ",300,,"}, Recs: []Rec{rTXT("t256.example.com", textOf(256), 300, "")}, Why: "one byte more than a wire character-string holds"},
+	{ID: "txt-381", Solo: true, Lines: []string{"'t381.example.com," + textOf(381) + ",300,,"}, Recs: []Rec{rTXT("t381.example.com", textOf(381), 300, "")}, Why: "exactly three chunks"},
+	{ID: "txt-1", Solo: true, Lines: []string{"'t1.example.com,x,300,,"}, Recs: []Rec{rTXT("t1.example.com", "x", 300, "")}, Why: "shortest text"},
+	{ID: "label-63", Solo: true, Lines: []string{"+" + label63 + ".example.com,192.0.2.101,300,,"}, Recs: []Rec{rA(label63+".example.com", "192.0.2.101", 300, "")}, Why: "owner with the longest label"},
+	{ID: "wild-label-63", Solo: true, Lines: []string{"+*." + label63 + ".w.example.com,192.0.2.102,300,,"}, Recs: []Rec{rA("*."+label63+".w.example.com", "192.0.2.102", 300, "")}, Why: "wildcard below the longest label"},
+	{ID: "name-255", Solo: true, Lines: []string{"+" + name255 + ",192.0.2.103,300,,"}, Recs: []Rec{rA(name255, "192.0.2.103", 300, "")}, Why: "owner of the longest name (255 bytes on the wire)"},
+	{ID: "name-254", Solo: true, Lines: []string{"+" + name254 + ",192.0.2.104,300,,aa"}, Recs: []Rec{rA(name254, "192.0.2.104", 300, "aa")}, Why: "owner one byte shorter than the longest name, located"},
+	{ID: "cname-to-255", Solo: true, Lines: []string{"Clong.example.com," + name255 + ",300,,"}, Recs: []Rec{rName(tCNAME, "long.example.com", name255, 300, "")}, Why: "rdata holding the longest name"},
+	{ID: "mx-to-label-63", Solo: true, Lines: []string{"@mx63.example.com,192.0.2.105," + label63 + ",5,300,,"}, Recs: []Rec{
+		rMX("mx63.example.com", 5, label63+".mx.mx63.example.com", 300, ""),
+		rA(label63+".mx.mx63.example.com", "192.0.2.105", 300, "")}, Why: "name expansion of the longest label"},
+	{ID: "deep-15", Solo: true, Lines: []string{"+" + deep15 + ",192.0.2.106,300,,"}, Recs: []Rec{rA(deep15, "192.0.2.106", 300, "")}, Why: "owner with 15 labels; 12 empty non-terminals"},
+	{ID: "wild-deep", Solo: true, Lines: []string{"+*.e.f.g.h.i.j.k.l.deep.example.com,192.0.2.107,300,,"}, Recs: []Rec{rA("*.e.f.g.h.i.j.k.l.deep.example.com", "192.0.2.107", 300, "")}, Why: "wildcard 11 labels deep"},
+	{ID: "mx-pref-0", Solo: true, Lines: []string{"@mxp.example.com,,mail.example.com,0,300,,"}, Recs: []Rec{rMX("mxp.example.com", 0, "mail.example.com", 300, "")}, Why: "smallest preference"},
+	{ID: "mx-pref-max", Solo: true, Lines: []string{"@mxp.example.com,,mail.example.com,65535,300,,"}, Recs: []Rec{rMX("mxp.example.com", 65535, "mail.example.com", 300, "")}, Why: "largest preference"},
+	{ID: "mx-pref-256", Solo: true, Lines: []string{"@mxp.example.com,,mail.example.com,256,300,,"}, Recs: []Rec{rMX("mxp.example.com", 256, "mail.example.com", 300, "")}, Why: "preference using the high byte only"},
+	{ID: "srv-zero", Solo: true, Lines: []string{"S_z._tcp.example.com,,srv.example.com,0,0,0,300,,"}, Recs: []Rec{rSRV("_z._tcp.example.com", 0, 0, 0, "srv.example.com", 300, "")}, Why: "port, priority and weight 0; explicit target"},
+	{ID: "srv-max", Solo: true, Lines: []string{"S_z._tcp.example.com,,srv.example.com,65535,65534,65533,300,,"}, Recs: []Rec{rSRV("_z._tcp.example.com", 65534, 65533, 65535, "srv.example.com", 300, "")}, Why: "largest port, priority and weight (distinct, so a swap shows)"},
+	{ID: "ttl-0", Solo: true, Lines: []string{"+t0.example.com,192.0.2.108,0,,", "'t0.example.com,zero,0,,"}, Recs: []Rec{rA("t0.example.com", "192.0.2.108", 0, ""), rTXT("t0.example.com", "zero", 0, "")}, Why: "explicit TTL 0 is a declared TTL, not the default"},
+	{ID: "ttl-1", Solo: true, Lines: []string{"+t1s.example.com,192.0.2.109,1,,", "Ct1c.example.com,www.example.com,1,,"}, Recs: []Rec{rA("t1s.example.com", "192.0.2.109", 1, ""), rName(tCNAME, "t1c.example.com", "www.example.com", 1, "")}, Why: "smallest positive TTL"},
+	{ID: "ttl-max", Solo: true, Lines: []string{"+tmax.example.com,192.0.2.110,2147483647,,", "^tmax.example.com,www.example.com,2147483647,,", "&tmaxd.example.com,,ns.other.org,2147483647,,"}, Recs: []Rec{
+		rA("tmax.example.com", "192.0.2.110", uint32(maxTTL31), ""), rName(tPTR, "tmax.example.com", "www.example.com", uint32(maxTTL31), ""),
+		rName(tNS, "tmaxd.example.com", "ns.other.org", uint32(maxTTL31), "")}, Why: "largest TTL (2^31-1), also on a delegation"},
+	{ID: "soa-max", Solo: true, Lines: []string{
+		"Zsmax.example.com,a.ns.example.com,hostmaster.example.com,4294967295,4294967294,4294967293,4294967292,4294967291,2147483647,,",
+		"&smax.example.com,,a.ns.example.com,3600,,"}, Recs: []Rec{
+		rSOA("smax.example.com", "a.ns.example.com", "hostmaster.example.com", maxU32, maxU32-1, maxU32-2, maxU32-3, maxU32-4, uint32(maxTTL31), ""),
+		rName(tNS, "smax.example.com", "a.ns.example.com", 3600, "")}, Why: "largest SOA numbers (distinct, so a swap shows)"},
+	{ID: "soa-zero", Solo: true, Lines: []string{
+		"Zszero.example.com,a.ns.example.com,hostmaster.example.com,0,0,0,0,0,0,,",
+		"&szero.example.com,,a.ns.example.com,0,,"}, Recs: []Rec{
+		rSOA("szero.example.com", "a.ns.example.com", "hostmaster.example.com", 0, 0, 0, 0, 0, 0, ""),
+		rName(tNS, "szero.example.com", "a.ns.example.com", 0, "")}, Why: "explicit zeros in every numeric field are declared values, not defaults"},
+	{ID: "svcb-alpn-255", Solo: true, Lines: []string{"Bsv1.example.com,target.example.com,300,,1,alpn=" + alpn255}, Recs: []Rec{
+		rSVC(tSVCB, "sv1.example.com", 1, "target.example.com", svcParam(1, "\xff"+alpn255), 300, "")}, Why: "longest alpn id"},
+	{ID: "svcb-alpn-254-1", Solo: true, Lines: []string{"Bsv1.example.com,target.example.com,300,,1,alpn=" + alpn254 + "|r"}, Recs: []Rec{
+		rSVC(tSVCB, "sv1.example.com", 1, "target.example.com", svcParam(1, "\xfe"+alpn254+"\x01r"), 300, "")}, Why: "alpn ids of 254 bytes and of 1 byte; value of 257 bytes"},
+	{ID: "svcb-port-0", Solo: true, Lines: []string{"Hsv2.example.com,target.example.com,300,,1,port=0"}, Recs: []Rec{
+		rSVC(tHTTPS, "sv2.example.com", 1, "target.example.com", svcParam(3, u16(0)), 300, "")}, Why: "smallest port"},
+	{ID: "svcb-port-max", Solo: true, Lines: []string{"Hsv2.example.com,target.example.com,300,,65535,port=65535"}, Recs: []Rec{
+		rSVC(tHTTPS, "sv2.example.com", 65535, "target.example.com", svcParam(3, u16(65535)), 300, "")}, Why: "largest port and priority"},
+	{ID: "svcb-alias", Solo: true, Lines: []string{"Bsv3.example.com,target.example.com,300,,0,"}, Recs: []Rec{
+		rSVC(tSVCB, "sv3.example.com", 0, "target.example.com", "", 300, "")}, Why: "priority 0 (alias form), no parameters"},
+	{ID: "svcb-to-255", Solo: true, Lines: []string{"Bsv4.example.com," + name255 + ",300,,1,port=443"}, Recs: []Rec{
+		rSVC(tSVCB, "sv4.example.com", 1, name255, svcParam(3, u16(443)), 300, "")}, Why: "longest target name"},
+	{ID: "gen-long", Solo: true, Lines: []string{":glong.example.com,65281," + octal(rawLong) + ",300,,"}, Recs: []Rec{rRaw("glong.example.com", 65281, rawLong, 300, "")}, Why: "300 bytes of generic rdata holding every kind of byte"},
+	{ID: "gen-1", Solo: true, Lines: []string{":g1.example.com,65281,\\000,300,,"}, Recs: []Rec{rRaw("g1.example.com", 65281, "\x00", 300, "")}, Why: "one zero byte of generic rdata"},
 }
